@@ -38,18 +38,21 @@ let run_mon toks =
 (* ---- resource machine *)
 open Effects
 let sched_of k = if k < 0 then [] else Stdlib.List.init (k + 1) (fun i -> i = k)
-let canon sizes sortx (tr : tev list) =
+let canon ?(blocks=true) ?(sortd=false) sizes sortx (tr : tev list) =
   let os = Hashtbl.create 16 and bs = Hashtbl.create 16 in
   let ren tbl key = match Hashtbl.find_opt tbl key with
     | Some n -> n | None -> let n = Hashtbl.length tbl in Hashtbl.add tbl key n; n in
   let o (l : loc) = ren os (zs (fst l) ^ ":" ^ zs (snd l)) and b x = ren bs (zs x) in
-  let toks = ref [] and xrun = ref [] in
+  let toks = ref [] and xrun = ref [] and drun = ref [] in
+  let flushd () = Stdlib.List.iter (fun x -> toks := ("D" ^ string_of_int x) :: !toks) (Stdlib.List.sort compare !drun); drun := [] in
   let flush () =
     let xs = if sortx then Stdlib.List.sort compare (Stdlib.List.rev !xrun) else Stdlib.List.rev !xrun in
     Stdlib.List.iter (fun x -> toks := ("X" ^ string_of_int x) :: !toks) xs; xrun := [] in
   Stdlib.List.iter (fun e -> match e with
     | TDestroy l -> xrun := o l :: !xrun
-    | _ -> flush ();
+    | (TAlloc _ | TDealloc _) when not blocks -> ()
+    | TDealloc (x, _) when sortd -> flush (); drun := b x :: !drun
+    | _ -> flush (); flushd ();
       (match e with
        | TCopy (d, s) -> let s' = o s in let d' = o d in toks := Printf.sprintf "C%d.%d" d' s' :: !toks
        | TMove (d, s) -> let s' = o s in let d' = o d in toks := Printf.sprintf "M%d.%d" d' s' :: !toks
@@ -57,11 +60,11 @@ let canon sizes sortx (tr : tev list) =
        | TDealloc (x, sz) -> toks := (Printf.sprintf "D%d" (b x) ^ (if sizes then "." ^ zs sz else "")) :: !toks
        | TFail -> toks := "F" :: !toks
        | TDestroy _ -> ())) (Stdlib.List.rev tr);
-  flush ();
+  flush (); flushd ();
   String.concat "" (Stdlib.List.map (fun t -> " " ^ t) (Stdlib.List.rev !toks))
-let print_result sizes sortx (o, s) =
+let print_result ?(blocks=true) ?(sortd=false) sizes sortx (o, s) =
   let tag = match o with Val _ -> "val" | Exc -> "exc" | Stuck -> "stuck" in
-  print_endline (tag ^ canon sizes sortx s.trace ^ " ! 0 0 0")   (* the registry summary the real code must end with *)
+  print_endline (tag ^ canon ~blocks ~sortd sizes sortx s.trace ^ " ! 0 0 0")   (* the registry summary the real code must end with *)
 let cat_of = function "ntm" -> NTM | _ -> CPO
 let with_live s l v = set_cell s l (Live (z v))
 let isz = z 8          (* sizeof(kit::ElemNtm) = sizeof(kit::ElemCpo) = one pointer *)
@@ -110,4 +113,59 @@ let () = iter_lines (fun line ->
     let n = int_of_string n and k = int_of_string k in
     let s0 = init_state (z (-1)) (z n) (sched_of k) in
     print_result false true (hs_copy_then_destroy mgr (z 1) (z 2) (z 3) false (z (-1)) (nat_of_int n) s0)
+  | ["crew"; k; m; fail] ->
+    let s0 = init_state (z (-1)) (z 0) (sched_of (int_of_string fail)) in
+    print_result ~sortd:true false false
+      (Effects2.merge_scn mgr (z 24) (z 168) (z 450) true (nat_of_int (int_of_string k)) (nat_of_int (int_of_string m)) s0)
+  | ["pools"; a; b; fail] ->
+    let s0 = init_state (z (-1)) (z 0) (sched_of (int_of_string fail)) in
+    print_result ~sortd:true false false
+      (Effects2.pools_scn mgr (z 114) true (nat_of_int (int_of_string a)) (nat_of_int (int_of_string b)) s0)
+  | ["ts2"; c; j] ->     (* crew, params, root node, c-1 root items, then per child: node, 2 items *)
+    let c = int_of_string c and j = int_of_string j in
+    let k = if j < 0 then -1 else if j < c - 1 then 3 + j
+            else let j' = j - (c - 1) in 3 + (c - 1) + (j' / 2) * 3 + 1 + (j' mod 2) in
+    print_result ~blocks:false false true
+      (Effects2.ts2_copy_then_destroy mgr (z 96) (z 168) (z 24) (nat_of_int (c - 1)) (nat_of_int 2) true (z (-1)) (z (-2)) (nat_of_int c)
+         (Effects2Proofs.rows_init (sched_of k)))
+  | ["sa"; n; c] ->      (* 4 items per segment: the c-th copy comes after c/4 + 1 segment allocations *)
+    let c = int_of_string c in
+    let k = if c < 0 then -1 else c + c / 4 + 1 in
+    print_result ~blocks:false false true
+      (Effects3.sa_ctor_then_destroy mgr (z 32) (nat_of_int 4) (z (-1)) (nat_of_int (int_of_string n)) (Effects2Proofs.rows_init (sched_of k)))
+  | ["growprobe"; _; _] -> print_endline "?"
+  | ["grow"; cat; flags; c] ->
+    (* the schedule "the c-th element COPY fails" is found by running the model once without failures and locating the
+       c-th copy among its fallible steps (allocations and copies, in trace order) *)
+    let c = int_of_string c in
+    let ops = Stdlib.List.init (String.length flags) (fun i -> flags.[i] = '1') in
+    let run sch = Effects3.hs_history (cat_of cat) mgr (fun _ -> z 64) ops (z (-1)) (Effects2Proofs.rows_init sch) in
+    let sch =
+      if c < 0 then [] else begin
+        let (_, s0) = run [] in
+        let steps = Stdlib.List.filter_map (function TAlloc _ -> Some false | TCopy _ -> Some true | _ -> None) (Stdlib.List.rev s0.trace) in
+        let rec go l seen acc = match l with
+          | [] -> Stdlib.List.rev acc
+          | true :: _ when seen = c -> Stdlib.List.rev (true :: acc)
+          | true :: r -> go r (seen + 1) (false :: acc)
+          | false :: r -> go r seen (false :: acc) in
+        let r = go steps 0 [] in
+        if Stdlib.List.exists (fun b -> b) r then r else []
+      end in
+    let (_, s1) = run sch in
+    let kinds = Stdlib.List.filter_map (function TCopy _ -> Some "C" | TMove _ -> Some "M" | TDestroy _ -> Some "X" | TFail -> Some "F" | _ -> None)
+        (Stdlib.List.rev s1.trace) in
+    print_endline ("kinds" ^ String.concat "" (Stdlib.List.map (fun k -> " " ^ k) kinds) ^ " ! 0 0 0")
+  | ["dt"; n; c] ->      (* the c-th element copy fails: crew alloc, then per row: alloc, 2 copies, link step *)
+    let c = int_of_string c in
+    let k = if c < 0 then -1 else 1 + (c / 2) * 4 + 1 + (c mod 2) in
+    print_result ~blocks:false false true
+      (Effects2.dt_copy_then_destroy mgr (z 40) (z 24) (nat_of_int 2) false true true (z (-1)) (z (-2)) (nat_of_int (int_of_string n))
+         (Effects2Proofs.rows_init (sched_of k)))
+  | ["hmm"; n; c] ->     (* two crews, then per key: alloc, 2 value copies, link step, key copy *)
+    let c = int_of_string c in
+    let k = if c < 0 then -1 else 2 + (c / 3) * 5 + (if c mod 3 < 2 then 1 + c mod 3 else 4) in
+    print_result ~blocks:false false true
+      (Effects2.hmm_ctor_then_destroy mgr (z 40) (z 24) (nat_of_int 2) true true true (z (-1)) (z (-2)) (nat_of_int (int_of_string n))
+         (Effects2Proofs.rows_init (sched_of k)))
   | _ -> print_endline "?")
